@@ -16,6 +16,9 @@ fn acts() -> Vec<MAct> {
         for cmdline in [
             vec!["SUBSCRIBE", "c1"], vec!["SUBSCRIBE", "c1", "c2"], vec!["PSUBSCRIBE", "c*"], vec!["PSUBSCRIBE", "c?", "*1"], vec!["PSUBSCRIBE", "[c]1"],
             vec!["UNSUBSCRIBE", "c1"], vec!["UNSUBSCRIBE"], vec!["PUNSUBSCRIBE", "c*"], vec!["PUNSUBSCRIBE"], vec!["UNSUBSCRIBE", "c2", "zz"],
+            // a pattern spelled exactly like a channel, and a channel spelled like a pattern: the two tables share
+            // their key type, so a slip that uses one for the other shows only when the names coincide
+            vec!["PSUBSCRIBE", "c1"], vec!["SUBSCRIBE", "c*"], vec!["PUNSUBSCRIBE", "c1"], vec!["UNSUBSCRIBE", "c*"],
         ] {
             a.push(mcmd(c, &cmdline));
         }
